@@ -346,5 +346,28 @@ fn decoding(code: u32) {
     kani::cover!(matches!(r, CrashReason::WindowsUnknown(_)) && n == 3, "known facility, unknown error");
 }
 
+/// F: MinidumpBreakpadInfo::read (validity bits gating the dump-writer and requesting thread ids)
+/// I: the 12 bytes of the stream, both byte orders
+/// B: one record
+/// O: dump_thread_id is reported iff validity bit 0 is set, requesting_thread_id iff bit 1 is set, each with the record's own value (the requesting thread chosen by the processor when there is no exception stream comes from here)
+#[kani::proof]
+#[kani::unwind(6)]
+fn c14_q_breakpad_info_thread_ids() {
+    let bytes: [u8; 12] = kani::any();
+    let e = any_endian();
+    let rd = |o: usize| {
+        let b = [bytes[o], bytes[o + 1], bytes[o + 2], bytes[o + 3]];
+        match e {
+            Endian::Little => u32::from_le_bytes(b),
+            Endian::Big => u32::from_be_bytes(b),
+        }
+    };
+    let r = minidump::MinidumpBreakpadInfo::read(&bytes, &bytes, e, None).unwrap();
+    let v = rd(0);
+    assert!(r.dump_thread_id == if v & 1 != 0 { Some(rd(4)) } else { None });
+    assert!(r.requesting_thread_id == if v & 2 != 0 { Some(rd(8)) } else { None });
+    kani::cover!(v & 3 == 2, "only the requesting thread id is valid");
+}
+
 #[path = "../playback/c14_exception.rs"]
 mod playback;
